@@ -1574,7 +1574,12 @@ fn parse_mapping(mapping: &Mapping) -> crate::Result<Expression> {
                 }
                 if group.is_empty() {
                     return Err(crate::error::parse_invalid_ident("failed to parse mapping"));
-                } else if !multiple && group.len() == 1 {
+                } else if !multiple
+                    && group.len() == 1
+                    && !matches!(e, Expression::Match(Match::Of(_), _))
+                {
+                    // NOTE: of(k, n) must keep its count even for one member: of(k, 0) negates
+                    // and of(k, 2) can never be satisfied by a single member.
                     group.into_iter().next().expect("could not get expression")
                 } else if let Expression::Match(m, _) = e {
                     if group.len() == 1 {
